@@ -1,1 +1,1034 @@
+// Package c11 monitors graph.IsPlanar against certificate-checked verdicts
+// (DESIGN.md section 4, C11): every expected answer is backed by a rotation
+// system of Euler genus 0 or by a K5 / K3,3 subdivision that the harness's own
+// checkers (package oracle/planarity) have verified for that very graph.
 package c11
+
+import (
+	"fmt"
+	"hash/fnv"
+
+	"github.com/Tom-Johnston/mamba/graph"
+
+	"verif/internal/engine"
+	"verif/internal/gen"
+	"verif/internal/oracle/brute"
+	"verif/internal/oracle/planarity"
+	"verif/internal/oracle/polya"
+	"verif/internal/oracle/rg"
+)
+
+func init() {
+	engine.Register(&engine.Property{
+		ID:    "C11",
+		Level: "exploration",
+		Rule: "graph.IsPlanar(g) on dense and sparse representations of: every isomorphism class on n <= 8 vertices (quick; n = 9 and 1/16 of n = 10 in thorough) under all (n <= 6; n <= 7 thorough) or seeded relabellings; " +
+			"graphs planar by construction with their rotation system (stacked and flip-randomised triangulations, random 2-connected plane graphs, outerplanar graphs, grids with diagonals, block trees, their random subgraphs, subdivisions, pendant / isolated vertices) up to n = 200; " +
+			"graphs non-planar by construction with their Kuratowski subgraph (subdivided K5 / K3,3 overlaid on, identified with or linked to large planar graphs, in labellings that put the subdivision first, last or anywhere); " +
+			"named families, random sparse graphs and near-triangulations (planar +/- a few edges) judged by the reference DMP with a checked certificate; plus certificate-free metamorphic runs (relabel, subdivide, pendant, isolated, edge deletion). " +
+			"A verdict is judged only against a certificate verified for that labelled graph (or for the class representative of which it is an explicit relabelling). " +
+			"non-trivial = n >= 6 and some block has >= 5 vertices (the DMP loop runs); distinct = hash of the labelled adjacency matrix",
+		Assumptions: []string{
+			"a rotation system whose faces give V - E + F = 2 on every component is a plane embedding; a subgraph that is a subdivision of K5 or K3,3 excludes planarity; a simple planar graph on n >= 3 vertices has at most 3n - 6 edges (harness checkers CheckRotation / CheckKuratowski, self-checked on all rotation systems of K4, K5, K3,3 and against A005470)",
+			"planarity is invariant under relabelling: in the class sweeps the certificate is verified for the class representative and the relabelled graphs are explicit images of it",
+			"rg.Dense / rg.Sparse fill the exported fields of the library's graph types consistently (no constructor under test)",
+			"search.All is used as an input source for n >= 9 only (its class count is compared with the Polya count for n = 9)",
+			"termination is judged as bounded progress: a call that consumes more than the CPU budget of the engine (30 CPU-s; correct runs take < 50 ms at n = 200) is reported by the engine as <key>|budget",
+		},
+		Run:            run,
+		Finish:         finish,
+		MinEvaluations: map[string]int{"quick": 400000, "thorough": 8000000},
+		MinNontrivial:  map[string]int{"quick": 100000, "thorough": 2000000},
+		RequiredObs: []string{"calls:dense", "calls:sparse", "cert:rotation", "cert:K5", "cert:K3,3", "cert:edge-bound",
+			"classes_n=8", "family:stacked", "family:flipped", "family:plane", "family:outerplanar", "family:grid", "family:blocktree",
+			"family:overlay", "family:nearplanar", "family:random", "family:named", "verdict:planar", "verdict:nonplanar",
+			"derived:subgraph", "derived:subdivide", "derived:pendant+isolated", "metamorphic:pairs"},
+	})
+}
+
+const (
+	dense  = 1
+	sparse = 2
+	both   = 3
+)
+
+type mon struct {
+	c *engine.Ctx
+}
+
+// gid is the stable identity of a labelled graph in keys.
+func gid(g *rg.G) string {
+	if g.N <= 12 {
+		return g.G6()
+	}
+	h := fnv.New64a()
+	h.Write([]byte(g.Key()))
+	return fmt.Sprintf("n=%d,m=%d,h=%016x", g.N, g.M(), h.Sum64())
+}
+
+func graphJSON(d map[string]interface{}, g *rg.G) {
+	d["n"] = g.N
+	d["m"] = g.M()
+	if g.N <= 62 {
+		d["graph6"] = g.G6()
+	} else {
+		d["edges"] = g.Edges()
+	}
+}
+
+func certJSON(d map[string]interface{}, cert *planarity.Cert, kind string) {
+	d["certificate"] = kind
+	if cert == nil {
+		return
+	}
+	if cert.Planar {
+		d["rotation_system"] = cert.Rot
+	} else if cert.Kur != nil {
+		d["kuratowski_subgraph"] = cert.Kur
+	}
+}
+
+// call runs IsPlanar on one representation.  ok = false after a panic (reported).
+func (m *mon) call(g *rg.G, id string, repr int, expect string, detail func(repr string) interface{}) (res, ok bool) {
+	c := m.c
+	var h graph.Graph
+	name := "dense"
+	if repr == dense {
+		h = g.Dense()
+	} else {
+		h = g.Sparse()
+		name = "sparse"
+	}
+	pi := c.Call("IsPlanar|"+id+"|"+name, func() { res = graph.IsPlanar(h) })
+	c.Obs("calls:"+name, 1)
+	if pi != nil {
+		c.Obs("panics", 1)
+		c.Violation("IsPlanar|panic|"+engine.SiteNoLine(pi.Site)+"|"+id, detail(name), pi.String(), expect)
+		return false, false
+	}
+	return res, true
+}
+
+// judge compares IsPlanar(g) in the requested representations with the
+// certified truth.  It returns the library's verdict and whether the case is
+// clean.
+func (m *mon) judge(g *rg.G, truth bool, kind string, reprs int, detail func(repr string) interface{}) (verdict, clean bool) {
+	c := m.c
+	id := gid(g)
+	expect := fmt.Sprintf("IsPlanar = %v (certificate verified: %s)", truth, kind)
+	verdict = truth
+	for _, rp := range []int{dense, sparse} {
+		if reprs&rp == 0 {
+			continue
+		}
+		got, ok := m.call(g, id, rp, expect, detail)
+		c.Eval(1)
+		if !ok {
+			return got, false
+		}
+		verdict = got
+		if got != truth {
+			name := "dense"
+			if rp == sparse {
+				name = "sparse"
+			}
+			what := "planar-reported-nonplanar"
+			if got {
+				what = "nonplanar-reported-planar"
+			}
+			c.Violation("IsPlanar|wrong|"+what+"|"+id, detail(name), fmt.Sprintf("IsPlanar = %v", got), expect)
+			return got, false
+		}
+	}
+	if truth {
+		c.Obs("verdict:planar", 1)
+	} else {
+		c.Obs("verdict:nonplanar", 1)
+	}
+	return verdict, true
+}
+
+func (m *mon) sizeObs(g *rg.G) {
+	c := m.c
+	switch {
+	case g.N <= 10:
+		c.Obs(fmt.Sprintf("size:n=%d", g.N), 1)
+	case g.N <= 32:
+		c.Obs("size:n=11..32", 1)
+	case g.N <= 64:
+		c.Obs("size:n=33..64", 1)
+	case g.N <= 128:
+		c.Obs("size:n=65..128", 1)
+	default:
+		c.Obs("size:n>128", 1)
+	}
+	c.ObsMax("n", g.N)
+	c.ObsMax("m", g.M())
+}
+
+// nontrivial applies the NT rule and records the fingerprint.
+func (m *mon) nontrivial(g *rg.G) bool {
+	if g.N < 6 {
+		return false
+	}
+	bl := planarity.Blocks(g)
+	mx := 0
+	for _, b := range bl {
+		if len(b) > mx {
+			mx = len(b)
+		}
+	}
+	m.c.ObsMax("blocks_in_one_graph", len(bl))
+	m.c.ObsMax("largest_block", mx)
+	if mx >= 5 {
+		m.c.NT(g.Key())
+		return true
+	}
+	return false
+}
+
+func relabelCert(ct *planarity.Cert, perm []int) *planarity.Cert {
+	switch {
+	case ct.Planar:
+		return &planarity.Cert{Planar: true, Rot: (&planarity.Emb{Rot: ct.Rot}).Relabel(perm).Rot}
+	case ct.Dense:
+		return ct
+	}
+	return &planarity.Cert{Kur: relabelEdges(ct.Kur, perm)}
+}
+
+// certified judges one labelled graph whose certificate is verified here.
+// Returns the library verdict and whether the case was judged and clean.
+func (m *mon) certified(label string, g *rg.G, ct *planarity.Cert, reprs int) (verdict, clean bool) {
+	c := m.c
+	kind, err := ct.Verify(g)
+	if err != nil {
+		c.Obs("uncertified", 1)
+		c.Obs("uncertified:"+label, 1)
+		c.Inconclusive(fmt.Sprintf("%s: certificate rejected for %s: %v", label, gid(g), err))
+		return false, false
+	}
+	c.Obs("cert:"+kind, 1)
+	m.sizeObs(g)
+	m.nontrivial(g)
+	return m.judge(g, ct.Planar, kind, reprs, func(repr string) interface{} {
+		d := map[string]interface{}{"workload": label, "repr": repr}
+		graphJSON(d, g)
+		certJSON(d, ct, kind)
+		return d
+	})
+}
+
+// labellings judges g under the identity, the reversal and k seeded
+// relabellings, each with its own transformed and re-verified certificate.
+func (m *mon) labellings(label string, g *rg.G, ct *planarity.Cert, r *engine.Rng, k int) bool {
+	if _, ok := m.certified(label, g, ct, both); !ok {
+		return false
+	}
+	n := g.N
+	perms := [][]int{reversed(n)}
+	for i := 0; i < k; i++ {
+		perms = append(perms, r.Perm(n))
+	}
+	for i, p := range perms {
+		rp := dense
+		if i%2 == 1 {
+			rp = sparse
+		}
+		m.c.Obs("relabellings", 1)
+		if _, ok := m.certified(label+"/relabelled", g.Induced(p), relabelCert(ct, p), rp); !ok {
+			return false
+		}
+	}
+	return true
+}
+
+func run(c *engine.Ctx) {
+	m := &mon{c: c}
+	m.classSweeps()
+	m.planarFamilies()
+	m.nonplanarFamilies()
+	m.referenceJudged()
+	m.metamorphic()
+}
+
+func finish(s *engine.Super) {
+	if s.Thorough() {
+		if got, want := s.Obs("classes_n=9"), polya.Graphs(9).Int64(); got != want {
+			s.Inconclusive(fmt.Sprintf("input source: search.All(9) produced %d classes, Polya count is %d", got, want))
+		}
+	}
+	if u := s.Obs("uncertified"); u > 0 {
+		s.Inconclusive(fmt.Sprintf("%d inputs had a certificate that the checkers rejected (oracle or generator fault)", u))
+	}
+	if u := s.Obs("oracle_disagreement"); u > 0 {
+		s.Inconclusive(fmt.Sprintf("%d inputs on which the two reference implementations disagree", u))
+	}
+}
+
+// ---------------------------------------------------------------- class sweeps
+
+// eachPerm calls f with every permutation of 0..n-1 (Heap's algorithm); f must
+// not retain the slice.
+func eachPerm(n int, f func(p []int)) {
+	p := identity(n)
+	cnt := make([]int, n)
+	f(p)
+	for i := 0; i < n; {
+		if cnt[i] < i {
+			if i%2 == 0 {
+				p[0], p[i] = p[i], p[0]
+			} else {
+				p[cnt[i]], p[i] = p[i], p[cnt[i]]
+			}
+			f(p)
+			cnt[i]++
+			i = 0
+		} else {
+			cnt[i] = 0
+			i++
+		}
+	}
+}
+
+// sweepClass certifies the class representative g and judges it under the
+// given relabellings (all of them if nperm < 0).
+func (m *mon) sweepClass(g *rg.G, nperm int, r *engine.Rng, reprs int) {
+	c := m.c
+	n := g.N
+	ct := planarity.Reference(g)
+	kind, err := ct.Verify(g)
+	if err != nil {
+		c.Obs("uncertified", 1)
+		c.Inconclusive(fmt.Sprintf("class sweep: certificate of the reference rejected for %s: %v", g.G6(), err))
+		return
+	}
+	if n <= 9 {
+		// second, structurally different reference (bit masks, own certificate checkers)
+		bp, bok := brute.RefPlanar(brute.FromRG(g, n))
+		if !bok || bp != ct.Planar {
+			c.Obs("oracle_disagreement", 1)
+			c.Inconclusive(fmt.Sprintf("class sweep: references disagree on %s: planarity.Reference planar=%v, brute.RefPlanar planar=%v certified=%v", g.G6(), ct.Planar, bp, bok))
+			return
+		}
+		c.Obs("second_reference_agrees", 1)
+	}
+	c.Obs("cert:"+kind, 1)
+	c.Obs(fmt.Sprintf("classes_n=%d", n), 1)
+	if ct.Planar {
+		c.Obs(fmt.Sprintf("planar_classes_n=%d", n), 1)
+	}
+	nt := false
+	if n >= 6 && planarity.MaxBlock(g) >= 5 {
+		nt = true
+		c.Obs(fmt.Sprintf("nontrivial_classes_n=%d", n), 1)
+	}
+	rep := g.G6()
+	one := func(p []int, idx int) bool {
+		h := g
+		if p != nil {
+			h = g.Induced(p)
+		}
+		if nt {
+			c.NT(h.Key())
+		}
+		rp := reprs
+		if rp == 0 { // alternate
+			rp = dense
+			if idx%2 == 1 {
+				rp = sparse
+			}
+		}
+		c.Obs("relabellings", 1)
+		_, ok := m.judge(h, ct.Planar, kind, rp, func(repr string) interface{} {
+			d := map[string]interface{}{"workload": "class sweep", "repr": repr, "class_representative": rep}
+			if p != nil {
+				d["relabelling"] = append([]int(nil), p...)
+			}
+			graphJSON(d, h)
+			certJSON(d, ct, kind+" (verified for the class representative)")
+			return d
+		})
+		return ok
+	}
+	if nperm < 0 {
+		idx := 0
+		stop := false
+		eachPerm(n, func(p []int) {
+			if stop {
+				return
+			}
+			if !one(p, idx) {
+				stop = true
+			}
+			idx++
+		})
+		return
+	}
+	if !one(nil, 0) {
+		return
+	}
+	if n >= 2 && !one(reversed(n), 1) {
+		return
+	}
+	for i := 0; i < nperm; i++ {
+		if !one(r.Perm(n), i) {
+			return
+		}
+	}
+}
+
+func (m *mon) classSweeps() {
+	c := m.c
+	// n <= 5: one unit, all relabellings, both representations
+	c.Unit("classes/n<=5", func() {
+		for n := 0; n <= 5; n++ {
+			for _, g := range gen.Classes(n) {
+				m.sweepClass(g, -1, nil, both)
+			}
+			c.Obs(fmt.Sprintf("exhaustive:all classes n=%d x all relabellings x dense+sparse", n), 1)
+		}
+	})
+	chunked := func(n, per int, nperm int, reprs int, what string) {
+		total := int(polya.Graphs(n).Int64())
+		for lo, u := 0, 0; lo < total; lo, u = lo+per, u+1 {
+			lo, u := lo, u
+			c.Unit(fmt.Sprintf("classes/n=%d/%d", n, u), func() {
+				cl := gen.Classes(n)
+				hi := lo + per
+				if hi > len(cl) {
+					hi = len(cl)
+				}
+				for i := lo; i < hi && !c.Stopped(); i++ {
+					var r *engine.Rng
+					if nperm >= 0 {
+						r = c.Rand(fmt.Sprintf("classes%d", n), i)
+					}
+					m.sweepClass(cl[i], nperm, r, reprs)
+				}
+				if u == 0 {
+					c.Obs(fmt.Sprintf("exhaustive:all classes n=%d x %s", n, what), 1)
+					c.Sample("class sweep", map[string]interface{}{"n": n, "classes": len(cl), "relabellings": what, "first": cl[0].G6(), "last": cl[len(cl)-1].G6()})
+				}
+			})
+		}
+	}
+	chunked(6, 20, -1, both, "all relabellings x dense+sparse")
+	if c.Thorough() {
+		chunked(7, 24, -1, both, "all relabellings x dense+sparse")
+		chunked(8, 200, 48, 0, "identity, reversal, 48 seeded relabellings (dense/sparse alternating)")
+	} else {
+		chunked(7, 60, 60, both, "identity, reversal, 60 seeded relabellings x dense+sparse")
+		chunked(8, 250, 10, both, "identity, reversal, 10 seeded relabellings x dense+sparse")
+	}
+	if !c.Thorough() {
+		return
+	}
+	fromLibrary := func(n, a, mod int, unit string, nperm int) {
+		c.Unit(unit, func() {
+			var list []*rg.G
+			if pi := c.Call(fmt.Sprintf("search.All(%d,%d,%d)", n, a, mod), func() {
+				gen.ClassesFromLibrary(n, a, mod, func(g *rg.G) { list = append(list, g) })
+			}); pi != nil {
+				c.Inconclusive(fmt.Sprintf("input source search.All(%d,%d,%d) panicked: %s", n, a, mod, pi.String()))
+				return
+			}
+			for i, g := range list {
+				if c.Stopped() {
+					return
+				}
+				m.sweepClass(g, nperm, c.Rand(unit, i), 0)
+			}
+		})
+	}
+	for a := 0; a < 64; a++ {
+		fromLibrary(9, a, 64, fmt.Sprintf("classes/n=9/%d", a), 2)
+	}
+	c.Obs("exhaustive:all classes n=9 (from search.All, count checked against Polya) x identity, reversal, 2 seeded relabellings", 1)
+	const k10 = 48
+	for u := 0; u < k10; u++ {
+		fromLibrary(10, 16*u, 16*k10, fmt.Sprintf("classes/n=10/%d", u), 1)
+	}
+}
+
+// ---------------------------------------------------------------- planar by construction
+
+type planarGen struct {
+	name string
+	f    func(r *engine.Rng, n int) (*planarity.Emb, error)
+}
+
+func planarGens() []planarGen {
+	tri := func(flips bool) func(r *engine.Rng, n int) (*planarity.Emb, error) {
+		return func(r *engine.Rng, n int) (*planarity.Emb, error) {
+			f := stacked(r, n)
+			if flips {
+				flipSome(r, f, 2*n+r.Intn(4*n))
+			}
+			return f.Emb()
+		}
+	}
+	return []planarGen{
+		{"stacked", tri(false)},
+		{"flipped", tri(true)},
+		{"plane", func(r *engine.Rng, n int) (*planarity.Emb, error) {
+			return randomPlane(r, n, r.Float()*r.Float()).Emb()
+		}},
+		{"outerplanar", func(r *engine.Rng, n int) (*planarity.Emb, error) {
+			return outerplanar(r, n, r.Intn(n)).Emb()
+		}},
+		{"grid", func(r *engine.Rng, n int) (*planarity.Emb, error) {
+			a := 2 + r.Intn(7)
+			b := n / a
+			if b < 2 {
+				b = 2
+			}
+			return gridEmb(r, a, b, []float64{0, 0.3, 1}[r.Intn(3)]), nil
+		}},
+		{"blocktree", func(r *engine.Rng, n int) (*planarity.Emb, error) {
+			var parts []*planarity.Emb
+			left := n
+			for left > 0 {
+				k := 3 + r.Intn(12)
+				if k > left {
+					k = left
+				}
+				left -= k
+				var e *planarity.Emb
+				var err error
+				switch {
+				case k < 3:
+					e = planarity.NewEmb(k)
+					if k == 2 {
+						e.Bridge(0, 1, 0, 0)
+					}
+				case r.Bool(0.5):
+					f := stacked(r, k)
+					flipSome(r, f, k)
+					e, err = f.Emb()
+				default:
+					e, err = randomPlane(r, k, r.Float()).Emb()
+				}
+				if err != nil {
+					return nil, err
+				}
+				if r.Bool(0.3) {
+					e = thin(r, e, 0.2)
+				}
+				parts = append(parts, e)
+			}
+			return blockTree(r, parts), nil
+		}},
+	}
+}
+
+// sizeFor spreads the sizes of constructed inputs: mostly small and medium,
+// a share near the top of the tier.
+func sizeFor(c *engine.Ctx, r *engine.Rng, i int) int {
+	top := c.Pick(64, 200)
+	switch i % 8 {
+	case 0, 1:
+		return r.Range(5, 12)
+	case 2, 3:
+		return r.Range(10, 30)
+	case 4, 5:
+		return r.Range(25, 64)
+	case 6:
+		return r.Range(top/2, top)
+	default:
+		if c.Thorough() {
+			return r.Range(64, 140)
+		}
+		if i%64 == 7 { // a few big ones in the quick tier as well
+			return r.Range(100, 200)
+		}
+		return r.Range(30, 64)
+	}
+}
+
+func (m *mon) planarFamilies() {
+	c := m.c
+	gens := planarGens()
+	cases := c.Pick(2400, 24000)
+	per := 12
+	for u := 0; u*per < cases; u++ {
+		u := u
+		c.Unit(fmt.Sprintf("planar/%d", u), func() {
+			for i := u * per; i < (u+1)*per && i < cases && !c.Stopped(); i++ {
+				r := c.Rand("planar", i)
+				pg := gens[i%len(gens)]
+				n := sizeFor(c, r, i/len(gens))
+				label := "constructed planar: " + pg.name
+				e, err := pg.f(r, n)
+				if err != nil {
+					c.Obs("uncertified", 1)
+					c.Inconclusive(fmt.Sprintf("%s #%d: builder failed: %v", label, i, err))
+					continue
+				}
+				c.Obs("family:"+pg.name, 1)
+				g := e.Graph()
+				ct := &planarity.Cert{Planar: true, Rot: e.Rot}
+				if !m.labellings(label, g, ct, r, 2) {
+					continue
+				}
+				if i < 2*len(gens) {
+					c.Sample(label, map[string]interface{}{"n": g.N, "m": g.M(), "graph": gid(g), "blocks": len(planarity.Blocks(g))})
+				}
+				// subgraphs inherit the restricted rotation system
+				for _, p := range []float64{0.08, 0.3, 0.55} {
+					t := thin(r, e, p)
+					perm := r.Perm(t.N())
+					t = t.Relabel(perm)
+					c.Obs("derived:subgraph", 1)
+					if _, ok := m.certified(label+", random subgraph", t.Graph(), &planarity.Cert{Planar: true, Rot: t.Rot}, both); !ok {
+						break
+					}
+				}
+				// subdivisions, pendant and isolated vertices
+				d := decorate(r, e, 1+r.Intn(6), 0, 0)
+				c.Obs("derived:subdivide", 1)
+				if _, ok := m.certified(label+", subdivided", d.Graph(), &planarity.Cert{Planar: true, Rot: d.Rot}, both); !ok {
+					continue
+				}
+				d = decorate(r, thin(r, e, 0.15), r.Intn(3), 1+r.Intn(4), r.Intn(3))
+				d = d.Relabel(r.Perm(d.N()))
+				c.Obs("derived:pendant+isolated", 1)
+				m.certified(label+", with pendant and isolated vertices", d.Graph(), &planarity.Cert{Planar: true, Rot: d.Rot}, both)
+			}
+		})
+	}
+}
+
+// ---------------------------------------------------------------- non-planar by construction
+
+func (m *mon) nonplanarFamilies() {
+	c := m.c
+	gens := planarGens()
+	cases := c.Pick(2400, 24000)
+	per := 12
+	modes := []string{"alone", "cut vertex", "shared edge", "links", "branch vertices inside", "random overlay"}
+	for u := 0; u*per < cases; u++ {
+		u := u
+		c.Unit(fmt.Sprintf("nonplanar/%d", u), func() {
+			for i := u * per; i < (u+1)*per && i < cases && !c.Stopped(); i++ {
+				r := c.Rand("nonplanar", i)
+				mode := i % len(modes)
+				five := (i/len(modes))%2 == 0
+				maxSub := []int{0, 1, 3, 6}[r.Intn(4)]
+				h := kSubdivision(r, five, 0, maxSub)
+				label := "constructed non-planar: " + h.kind + " subdivision, " + modes[mode]
+				// the planar host
+				var p *rg.G
+				if mode == 0 {
+					p = rg.New(0)
+				} else {
+					pg := gens[r.Intn(len(gens))]
+					n := sizeFor(c, r, i/(2*len(modes))) - h.n
+					if n < 9 {
+						n = 9 // every host has at least 6 vertices (block trees lose one per glued part)
+					}
+					e, err := pg.f(r, n)
+					if err != nil {
+						c.Obs("uncertified", 1)
+						c.Inconclusive(fmt.Sprintf("%s #%d: builder failed: %v", label, i, err))
+						continue
+					}
+					if r.Bool(0.3) {
+						e = thin(r, e, 0.2)
+					}
+					p = e.Graph()
+				}
+				onto := map[int]int{}
+				var links [][2]int
+				pick := func(k int) []int { return r.Perm(p.N)[:k] }
+				switch mode {
+				case 1:
+					onto[r.Intn(h.n)] = r.Intn(p.N)
+				case 2:
+					he := h.edges[r.Intn(len(h.edges))]
+					pes := p.Edges()
+					if len(pes) == 0 {
+						onto[he[0]] = 0
+					} else {
+						pe := pes[r.Intn(len(pes))]
+						onto[he[0]], onto[he[1]] = pe[0], pe[1]
+					}
+				case 3:
+					k := 2 + r.Intn(3)
+					hv := r.Perm(h.n)[:k]
+					pv := pick(k)
+					for j := 0; j < k; j++ {
+						links = append(links, [2]int{hv[j], pv[j]})
+					}
+				case 4:
+					pv := pick(len(h.branch))
+					for j, b := range h.branch {
+						onto[b] = pv[j]
+					}
+				case 5:
+					k := r.Intn(h.n + 1)
+					if k > p.N {
+						k = p.N
+					}
+					hv := r.Perm(h.n)[:k]
+					pv := pick(k)
+					for j := 0; j < k; j++ {
+						onto[hv[j]] = pv[j]
+					}
+					if k < 2 {
+						links = append(links, [2]int{r.Intn(h.n), r.Intn(p.N)}, [2]int{r.Intn(h.n), r.Intn(p.N)})
+					}
+				}
+				g, img := overlay(p, h, onto, links)
+				c.Obs("family:overlay", 1)
+				c.Obs("overlay:"+modes[mode], 1)
+				ct := &planarity.Cert{Kur: img}
+				// as built: host first, subdivision last; reversed: subdivision first
+				if !m.labellings(label, g, ct, r, 2) {
+					continue
+				}
+				if i < 2*len(modes) {
+					c.Sample(label, map[string]interface{}{"n": g.N, "m": g.M(), "graph": gid(g), "host_vertices": p.N, "subdivision_vertices": h.n})
+				}
+				// derived: subdivide edges (an edge of the subdivision is replaced by its two halves)
+				d := g.Copy()
+				dk := append([][2]int(nil), img...)
+				for t := 1 + r.Intn(5); t > 0; t-- {
+					es := d.Edges()
+					ed := es[r.Intn(len(es))]
+					w := d.N
+					d = d.AddVertex([]int{ed[0], ed[1]})
+					d.Del(ed[0], ed[1])
+					for j, ke := range dk {
+						if (ke[0] == ed[0] && ke[1] == ed[1]) || (ke[0] == ed[1] && ke[1] == ed[0]) {
+							dk[j] = [2]int{ed[0], w}
+							dk = append(dk, [2]int{w, ed[1]})
+							break
+						}
+					}
+				}
+				c.Obs("derived:subdivide", 1)
+				if _, ok := m.certified(label+", subdivided", d, &planarity.Cert{Kur: dk}, both); !ok {
+					continue
+				}
+				// derived: delete edges outside the subdivision, add pendant / isolated vertices, relabel
+				d = g.Copy()
+				inK := map[[2]int]bool{}
+				for _, ke := range img {
+					a, b := ke[0], ke[1]
+					if a > b {
+						a, b = b, a
+					}
+					inK[[2]int{a, b}] = true
+				}
+				pdel := []float64{0.1, 0.4, 0.8}[r.Intn(3)]
+				for _, ed := range g.Edges() {
+					if !inK[ed] && r.Bool(pdel) {
+						d.Del(ed[0], ed[1])
+					}
+				}
+				for t := r.Intn(3); t > 0; t-- {
+					d = d.AddVertex([]int{r.Intn(d.N)})
+				}
+				for t := r.Intn(2); t > 0; t-- {
+					d = d.AddVertex(nil)
+				}
+				perm := r.Perm(d.N)
+				c.Obs("derived:subgraph", 1)
+				c.Obs("derived:pendant+isolated", 1)
+				m.certified(label+", edges outside the subdivision deleted", d.Induced(perm), &planarity.Cert{Kur: relabelEdges(img, perm)}, both)
+			}
+		})
+	}
+}
+
+// ---------------------------------------------------------------- judged by the reference
+
+// named returns fixed graphs whose planarity is well known; the monitor does
+// not rely on that knowledge, the reference certifies each.
+func named() map[string]*rg.G {
+	out := map[string]*rg.G{}
+	for _, f := range gen.Families() {
+		if f.G.N <= 64 {
+			out[f.Name] = f.G
+		}
+	}
+	for k := 3; k <= 40; k += 3 {
+		out[fmt.Sprintf("wheel-%d", k)] = gen.Wheel(k)
+		out[fmt.Sprintf("K2,%d", k)] = gen.CompleteMultipartite(2, k)
+		out[fmt.Sprintf("K1,1,%d", k)] = gen.CompleteMultipartite(1, 1, k)
+		out[fmt.Sprintf("K3,%d", k)] = gen.CompleteMultipartite(3, k)
+		out[fmt.Sprintf("K1,2,%d", k)] = gen.CompleteMultipartite(1, 2, k)
+		out[fmt.Sprintf("prism-%d", k)] = gen.GenPetersen(k, 1)
+		out[fmt.Sprintf("antiprism-%d", k+1)] = gen.Circulant(2*(k+1), 1, 2)
+		out[fmt.Sprintf("moebius-ladder-%d", k)] = gen.Circulant(2*k, 1, k)
+		out[fmt.Sprintf("GP(%d,2)", k+2)] = gen.GenPetersen(k+2, 2)
+		out[fmt.Sprintf("GP(%d,3)", k+4)] = gen.GenPetersen(k+4, 3)
+		out[fmt.Sprintf("C%d(1,3)", k+4)] = gen.Circulant(k+4, 1, 3)
+	}
+	for a := 2; a <= 8; a++ {
+		for b := a; b <= 12; b += 3 {
+			out[fmt.Sprintf("grid-%dx%d", a, b)] = gen.Grid(a, b)
+			out[fmt.Sprintf("rook-%dx%d", a, b)] = gen.Rook(a, b)
+		}
+	}
+	for d := 1; d <= 5; d++ {
+		out[fmt.Sprintf("Q%d", d)] = gen.Hypercube(d)
+	}
+	for n := 1; n <= 9; n++ {
+		out[fmt.Sprintf("K%d", n)] = gen.Complete(n)
+		out[fmt.Sprintf("path-%d", 4*n)] = gen.PathG(4 * n)
+		out[fmt.Sprintf("cycle-%d", 3*n)] = gen.Cycle(3 * n)
+		out[fmt.Sprintf("%d disjoint K4", n)] = gen.Copies(gen.Complete(4), n)
+		out[fmt.Sprintf("K5 + %d disjoint K4", n)] = rg.Union(gen.Copies(gen.Complete(4), n), gen.Complete(5))
+	}
+	out["K2,2,2 (octahedron)"] = gen.CompleteMultipartite(2, 2, 2)
+	out["K2,2,2,2"] = gen.CompleteMultipartite(2, 2, 2, 2)
+	out["K2,2,3"] = gen.CompleteMultipartite(2, 2, 3)
+	out["K1,1,1,9"] = gen.CompleteMultipartite(1, 1, 1, 9)
+	out["K1,1,1,1,4"] = gen.CompleteMultipartite(1, 1, 1, 1, 4)
+	out["icosahedron"] = icosahedron()
+	out["Mycielski(C5) (Groetzsch)"] = gen.Mycielski(gen.Cycle(5))
+	return out
+}
+
+func icosahedron() *rg.G {
+	g := rg.New(12)
+	for i := 0; i < 5; i++ {
+		g.Add(0, 1+i)
+		g.Add(1+i, 1+(i+1)%5)
+		g.Add(11, 6+i)
+		g.Add(6+i, 6+(i+1)%5)
+		g.Add(1+i, 6+i)
+		g.Add(1+i, 6+(i+1)%5)
+	}
+	return g
+}
+
+func sortedKeys(m map[string]*rg.G) []string {
+	var ks []string
+	for k := range m {
+		ks = append(ks, k)
+	}
+	for i := 1; i < len(ks); i++ {
+		for j := i; j > 0 && ks[j-1] > ks[j]; j-- {
+			ks[j-1], ks[j] = ks[j], ks[j-1]
+		}
+	}
+	return ks
+}
+
+func (m *mon) referenceJudged() {
+	c := m.c
+	// named graphs
+	nm := named()
+	names := sortedKeys(nm)
+	per := 20
+	for u := 0; u*per < len(names); u++ {
+		u := u
+		c.Unit(fmt.Sprintf("named/%d", u), func() {
+			for i := u * per; i < (u+1)*per && i < len(names) && !c.Stopped(); i++ {
+				g := nm[names[i]]
+				ct := planarity.Reference(g)
+				c.Obs("family:named", 1)
+				if m.labellings("named graph: "+names[i], g, ct, c.Rand("named", i), 4) {
+					if ct.Planar {
+						c.Obs("named_planar", 1)
+					} else {
+						c.Obs("named_nonplanar", 1)
+					}
+				}
+			}
+		})
+	}
+	// random sparse graphs and near-triangulations
+	gens := planarGens()
+	cases := c.Pick(2400, 24000)
+	per = 12
+	for u := 0; u*per < cases; u++ {
+		u := u
+		c.Unit(fmt.Sprintf("reference/%d", u), func() {
+			for i := u * per; i < (u+1)*per && i < cases && !c.Stopped(); i++ {
+				r := c.Rand("reference", i)
+				n := sizeFor(c, r, i/2)
+				var g *rg.G
+				label := ""
+				if i%2 == 0 {
+					// G(n, m) with m around the range where both answers occur
+					label = "random sparse graph"
+					c.Obs("family:random", 1)
+					g = rg.New(n)
+					dens := 0.8 + 1.6*r.Float()
+					if n < 12 {
+						dens = 1 + 2*r.Float()
+					}
+					want := int(dens * float64(n))
+					for t := 0; t < 20*want && g.M() < want; t++ {
+						a, b := r.Intn(n), r.Intn(n)
+						if n > 20 && r.Bool(0.7) { // local edges keep large graphs planar more often
+							b = (a + 1 + r.Intn(6)) % n
+						}
+						g.Add(a, b)
+					}
+				} else {
+					// planar by construction, then a few edges deleted and a few added: the answer is not known beforehand
+					label = "near-planar graph (planar - d edges + a edges)"
+					c.Obs("family:nearplanar", 1)
+					pg := gens[r.Intn(3)]
+					e, err := pg.f(r, n)
+					if err != nil {
+						c.Obs("uncertified", 1)
+						c.Inconclusive(fmt.Sprintf("%s #%d: builder failed: %v", label, i, err))
+						continue
+					}
+					g = e.Graph()
+					es := g.Edges()
+					for t := r.Intn(2 + n/8); t > 0 && len(es) > 0; t-- {
+						ed := es[r.Intn(len(es))]
+						g.Del(ed[0], ed[1])
+					}
+					for t := 1 + r.Intn(3); t > 0; t-- {
+						a, b := r.Intn(n), r.Intn(n)
+						if r.Bool(0.5) {
+							// short chords: often still planar
+							nb := g.Nbrs(a)
+							if len(nb) > 0 {
+								nb2 := g.Nbrs(nb[r.Intn(len(nb))])
+								b = nb2[r.Intn(len(nb2))]
+							}
+						}
+						g.Add(a, b)
+					}
+				}
+				ct := planarity.Reference(g)
+				if ct.Planar {
+					c.Obs("reference_planar", 1)
+				} else {
+					c.Obs("reference_nonplanar", 1)
+				}
+				if !m.labellings(label, g, ct, r, 2) {
+					continue
+				}
+				if i < 4 {
+					c.Sample(label, map[string]interface{}{"n": g.N, "m": g.M(), "graph": gid(g), "planar": ct.Planar})
+				}
+			}
+		})
+	}
+}
+
+// ---------------------------------------------------------------- metamorphic, certificate free
+
+// metamorphic compares verdicts of the library with each other only, on
+// graphs whose planarity nobody has certified: isomorphic graphs, a
+// subdivision, a graph with extra pendant / isolated vertices must get the same
+// answer; a subgraph of a graph reported planar must be reported planar.
+func (m *mon) metamorphic() {
+	c := m.c
+	cases := c.Pick(1200, 12000)
+	per := 12
+	gens := planarGens()
+	for u := 0; u*per < cases; u++ {
+		u := u
+		c.Unit(fmt.Sprintf("metamorphic/%d", u), func() {
+			for i := u * per; i < (u+1)*per && i < cases && !c.Stopped(); i++ {
+				r := c.Rand("metamorphic", i)
+				n := sizeFor(c, r, i)
+				var g *rg.G
+				if i%3 == 0 {
+					g = rg.New(n)
+					want := int((0.9 + 1.3*r.Float()) * float64(n))
+					for t := 0; t < 20*want && g.M() < want; t++ {
+						a := r.Intn(n)
+						g.Add(a, (a+1+r.Intn(8))%n)
+					}
+				} else {
+					e, err := gens[r.Intn(len(gens))].f(r, n)
+					if err != nil {
+						continue
+					}
+					g = e.Graph()
+					for t := r.Intn(3); t > 0; t-- {
+						g.Add(r.Intn(g.N), r.Intn(g.N))
+					}
+				}
+				m.nontrivial(g)
+				id := gid(g)
+				det := func(rel string, h *rg.G) func(string) interface{} {
+					return func(repr string) interface{} {
+						d := map[string]interface{}{"workload": "metamorphic", "relation": rel, "repr": repr}
+						graphJSON(d, g)
+						if h != nil {
+							t := map[string]interface{}{}
+							graphJSON(t, h)
+							d["transformed"] = t
+						}
+						return d
+					}
+				}
+				base, ok := m.call(g, id, dense, "IsPlanar returns", det("base", nil))
+				if !ok {
+					continue
+				}
+				if base {
+					c.Obs("metamorphic:base_planar", 1)
+				} else {
+					c.Obs("metamorphic:base_nonplanar", 1)
+				}
+				check := func(rel string, h *rg.G, repr int, mustEqual bool) bool {
+					got, ok := m.call(h, gid(h), repr, "IsPlanar returns", det(rel, h))
+					if !ok {
+						return false
+					}
+					c.Eval(1)
+					c.Obs("metamorphic:pairs", 1)
+					c.Obs("metamorphic:"+rel, 1)
+					if got != base && (mustEqual || base) {
+						c.Violation("IsPlanar|metamorphic|"+rel+"|"+id, det(rel, h)(map[int]string{dense: "dense", sparse: "sparse"}[repr]),
+							fmt.Sprintf("IsPlanar(g) = %v but IsPlanar(%s of g) = %v", base, rel, got),
+							"the statement demands the same answer (for a subgraph: planar stays planar)")
+						return false
+					}
+					return true
+				}
+				if !check("other representation", g, sparse, true) {
+					continue
+				}
+				if !check("relabelling", g.Induced(r.Perm(g.N)), dense, true) {
+					continue
+				}
+				if !check("reversal", g.Induced(reversed(g.N)), sparse, true) {
+					continue
+				}
+				// subdivide
+				d := g.Copy()
+				for t := 1 + r.Intn(4); t > 0 && d.M() > 0; t-- {
+					es := d.Edges()
+					ed := es[r.Intn(len(es))]
+					d = d.AddVertex([]int{ed[0], ed[1]})
+					d.Del(ed[0], ed[1])
+				}
+				if !check("subdivision", d, dense, true) {
+					continue
+				}
+				// pendant + isolated
+				d = g.Copy()
+				for t := 1 + r.Intn(3); t > 0; t-- {
+					d = d.AddVertex([]int{r.Intn(d.N)})
+				}
+				d = d.AddVertex(nil)
+				if !check("pendant and isolated vertices", d.Induced(r.Perm(d.N)), dense, true) {
+					continue
+				}
+				// subgraph
+				d = g.Copy()
+				for _, ed := range g.Edges() {
+					if r.Bool(0.2) {
+						d.Del(ed[0], ed[1])
+					}
+				}
+				check("subgraph", d, sparse, false)
+			}
+		})
+	}
+}
